@@ -28,9 +28,33 @@ after an `if`/`match` go only into the alternatives that do not leave; an exit k
 owned values that die on the way out), inline_tree() inlines callees; tree_linear(program) must equal the flat
 footprint (checked here and again in Coq: C08_tables_agree).
 
-Honesty: anything the translator does not understand is an ERROR (exit 2, nothing written):
-an unknown method on a tracked type, a lock expression it cannot attribute, a lock call site in
-the four files that no footprint covers, a call cycle, an unbalanced footprint.
+Scope and honesty (second audit, N4).  The translator does NOT understand arbitrary Rust.
+What is followed: method calls on receivers the translator can type (self, parameters and let-bound values of
+the tracked types; fields through explicit tables; fields whose declared type mentions no
+lock/tracked/callback type are resolved through the struct declarations), `Self::f(..)`/`Type::f(..)` path
+calls to tracked methods (inlined), thread::spawn, Ticker::new, the guard constructors state()/drawable(),
+closures passed to Option::map, by-value ProgressBar handles (implicit drop at the end of the body unless
+moved out), implicit drops of an owned Ticker / upgraded Arc. What is accepted as lock free: a call resolved
+to a crate function outside the tracked impl blocks that a crate-wide fixpoint over all of src/*.rs (except
+the TermLike/leaf files in_memory.rs, term_like.rs, verif_clock.rs) found free of lock/condvar/spawn/join
+primitives and of calls that may reach one; std and known-crate paths (list STD_HEADS); constructors;
+derive/trait methods of crate types (list TRAIT_METHODS); allow-listed macros (matches!, assert*!,
+debug_assert*!, format!, write!, writeln!, vec!, panic!, unreachable!, ...): their ARGUMENTS are scanned like
+any expression, the expansion is trusted to be lock free, an unknown macro is an error. User callbacks (FnOnce
+parameters, ProgressTracker calls, format_state) become CCallback. What is REJECTED (exit 2 with file:line,
+the check then reports a broken tie): a path call or a path used as a value (function pointer) that is neither
+of the above; a call of a free function of the crate that may take a lock; a bare call `x(..)` of anything
+that is not a scanned lock-free free function or a callback parameter (closure variables, function pointers);
+a closure with lock events that is bound to a variable or passed to anything but Option::map; a method call on
+a receiver of a declared lock-free type that resolves to a crate function that may take a lock; a method call
+on a receiver it cannot type whose NAME is the name of any crate function that may take a lock (unless
+hand-listed); a lock/condvar/spawn/join primitive or a guard constructor call in a function outside the
+tracked impl blocks; a lock site not covered by a footprint; `else if`, control flow in expression position,
+`return` in a loop, `?` next to lock events, a guard assigned to a variable or released in only one
+non-leaving alternative, call cycles, unknown methods on tracked types. What stays TRUSTED: the typing tables
+(FIELDS, PRIM, STD, RET_GUARD), the hand lists IGNORE_OK (11 name collisions), FIX_OK (3), the macro and
+std-path allow-lists, and that a method whose name differs from the name of every lock-taking function of the
+crate, called on a receiver the translator cannot type, takes no library lock.
 """
 import os, re, sys, json
 
@@ -151,6 +175,7 @@ def match_paren(text, i):
 def parse_file(path, fname):
     raw = open(path, encoding="utf-8").read()
     text = strip_cfg_test(strip_src(raw))
+    text = re.sub(r"#!?\[[^\]\n]*\]", lambda m: " " * len(m.group(0)), text)    # remaining attributes
     fns = []
     for m in re.finditer(r"(?m)^impl(?:<[^>{]*>)?\s+(?:([\w:]+)(?:<[^>{]*>)?\s+for\s+)?(\w+)(?:<[^>{]*>)?\s*\{", text):
         trait, typ = m.group(1), m.group(2)
@@ -242,9 +267,19 @@ class Scanner:
         self.held = []                # Vars/temps currently holding a resource, in acquisition order
         self.owned = []               # guards and droppable values (owned Ticker, upgraded Arc), creation order
         self.alt_stack = []           # open alternatives: liveness snapshot (see mark)
+        self.pure_closures = set()    # variables bound to closures without lock events
         self.cb = set(re.findall(r"\b(\w+)\s*:\s*(?:impl\s+FnOnce|F\b)", fn.params))
-        for pm in re.finditer(r"(\w+)\s*:\s*&?\s*(?:mut\s+)?ProgressBar\b", fn.params):
-            self.scopes[0][pm.group(1)] = Var("ProgressBar")
+        for pm in re.finditer(r"(\w+)\s*:\s*(&?)\s*(?:mut\s+)?ProgressBar\b", fn.params):
+            v = Var("ProgressBar")
+            self.scopes[0][pm.group(1)] = v
+            if not pm.group(2):
+                v.handle = True             # by value: dropped at the end of this body unless it is moved out
+                self.owned.append(v)
+        if fn.typ == "ProgressBar" and fn.by_value_self:
+            v = Var("ProgressBar")
+            v.handle = True
+            self.scopes[0]["self"] = v
+            self.owned.append(v)
         self.selfty = SELF_TY[fn.typ]
 
     # -- helpers
@@ -276,6 +311,9 @@ class Scanner:
             return
         if v.res and v.owned:
             self.release(v)
+        elif getattr(v, "handle", False):
+            v.live = False
+            self.ev.append(("call", ("ProgressBar", "drop:glue"), self.where(off)))
         elif v.typ == "TickerOwned":
             v.live = False
             self.ev.append(("call", ("Ticker", "drop:drop"), self.where(off)))
@@ -326,6 +364,8 @@ class Scanner:
                 continue
             if v.res and v.owned:
                 out.append(("rel", v.res, ""))
+            elif getattr(v, "handle", False):
+                out.append(("call", ("ProgressBar", "drop:glue"), self.where(off)))
             elif v.typ == "TickerOwned":
                 out.append(("call", ("Ticker", "drop:drop"), self.where(off)))
             elif v.typ == "ArcBar":
@@ -454,6 +494,10 @@ class Scanner:
         def close_closure(off):
             c = closures.pop()
             has_ev = any(e[0] != "M" for e in self.ev[c["ev_start"]:])
+            if c.get("let"):
+                if has_ev:
+                    die("%s: a closure with lock events is bound to a variable: not supported" % self.where(off))
+                self.pure_closures.add(c["let"])
             if has_ev and (not c["call"] or c["call"][1] != "map" or c["iter"]):
                 die("%s: closure with lock events passed to `%s` (only Option::map is understood)"
                     % (self.where(off), c["call"][1] if c["call"] else "?"))
@@ -483,7 +527,10 @@ class Scanner:
             st = stmts[-1] if stmts else None
 
             # ---- closures: `|args| body` / `move || body` in argument position
-            if t in ("|", "||") and prev in ("(", ",", "move"):
+            if t in ("|", "||") and (prev == "=" or (prev == "move" and i >= 2 and toks[i - 2][0] == "=")) \
+                    and st and st["kind"] == "let":
+                st["closure_let"] = True
+            if t in ("|", "||") and (prev in ("(", ",", "move") or (st and st.get("closure_let") and prev == "=")):
                 j = i
                 if t == "|":
                     j = i + 1
@@ -493,7 +540,8 @@ class Scanner:
                 itr = any(toks[k][0] in ("iter", "into_iter", "iter_mut", "values", "values_mut", "keys")
                           for k in range(st["start"] if st else 0, i))
                 closures.append({"paren_level": len(parens), "brace_level": len(braces),
-                                 "braced": toks[j + 1][0] == "{", "call": call, "iter": itr, "ev_start": len(self.ev)})
+                                 "braced": toks[j + 1][0] == "{", "call": call, "iter": itr, "ev_start": len(self.ev),
+                                 "let": st["name"] if st and st.get("closure_let") else None})
                 self.mark("br_open")
                 self.mark("alt_open")
                 chain = None
@@ -611,6 +659,9 @@ class Scanner:
             if t == "," and closures and not closures[-1]["braced"] \
                     and closures[-1]["paren_level"] == len(parens) and closures[-1]["brace_level"] == len(braces):
                 close_closure(off)
+            if t == ";" and closures and closures[-1].get("let") and not closures[-1]["braced"] \
+                    and closures[-1]["paren_level"] == len(parens) and closures[-1]["brace_level"] == len(braces):
+                close_closure(off)
             if t == ";" or (t == "," and st and st["depth"] == len(braces) and not parens
                             and braces and st["kind"] != "let"):
                 if st and st["depth"] == len(braces) and not parens_open_in_stmt(parens, st):
@@ -669,8 +720,8 @@ class Scanner:
                     i += 3
                     continue
                 if chain:
-                    ty = field_type(chain[0], name)
-                    chain = (ty, None, None)
+                    ty, txt = field_type(chain[0], name, chain[2] if chain[0] in ("Safe", "SafeVal") else None)
+                    chain = (ty, None, txt)
                     last_chain, last_chain_end = chain, i + 1
                 i += 2
                 continue
@@ -698,9 +749,26 @@ class Scanner:
                         continue
                     if p in ("TargetKind::Multi", "Self::Multi", "Drawable::Multi") and after == "{":
                         self.bind_struct_pattern(p, j + 1)
+                    elif after == "(" or after not in ("{", "::", "<", "!"):
+                        # any other path call `A::b(..)` / path used as a value (function pointer): resolve it
+                        r = self.resolve_path(path, after == "(", off)
+                        if r == "call":
+                            parens.append({"call": (("path", None, None), p, off), "stmt": len(stmts)})
+                            chain = None
+                            i = j + 2
+                            continue
                     chain = None
                     i = j + 1
                     continue
+                if nxt == "!" and t not in KEYWORDS:
+                    if t not in MACROS:
+                        die("%s: macro `%s!` is not known to the translator" % (self.where(off), t))
+                    chain = None
+                    i += 2                      # the arguments are scanned like any other token stream
+                    continue
+                if nxt == "(" and t not in KEYWORDS and t != "drop" and t not in self.cb and self.lookup(t) is None \
+                        and not (prev in ("fn",)):
+                    self.resolve_bare_call(t, off)
                 if t == "drop" and nxt == "(" and toks[i + 3][0] == ")":
                     v = self.lookup(toks[i + 2][0])
                     if v is not None:
@@ -714,14 +782,23 @@ class Scanner:
                     i += 2
                     continue
                 v0 = self.lookup(t)
+                if v0 is not None and v0.live and getattr(v0, "handle", False) and nxt != "." and \
+                        ((prev in ("(", ",") and nxt in (")", ",")) or prev == "return" or
+                         (prev in (";", "{", "}", "") and nxt in ("}", ""))):
+                    v0.live = False                 # the handle is moved out (returned / passed on by value)
+                    chain = None
+                    i += 1
+                    continue
                 if v0 is not None and v0.live and v0.typ == "ArcBar" and prev in ("{", ",") and nxt in (",", "}"):
                     v0.live = False                 # moved into a struct literal (`ProgressBar { state, .. }`)
                     chain = None
                     i += 1
                     continue
+                if t in CRATE["free"] and (None, t) in CRATE["eff_keys"] and nxt != "(" and prev not in ("fn", "::"):
+                    die("%s: free function `%s` used as a value may take a lock: not supported" % (self.where(off), t))
                 if t == "self":
                     chain = (self.selfty, None, None)
-                elif t == "tracker":
+                elif t == "tracker" and self.lookup(t) is None:
                     chain = ("Tracker", None, None)
                 elif self.lookup(t) is not None and self.lookup(t).live:
                     v = self.lookup(t)
@@ -740,6 +817,56 @@ class Scanner:
         if self.held or closures:
             die("%s::%s: guards or closures still open at the end of the body" % (self.fn.typ, self.fn.name))
         return self.ev
+
+    # -- call resolution (everything that is not a method call on a typed receiver)
+    def resolve_path(self, path, is_call, off):
+        """`A::..::T::name` as a call or as a value.  -> "call" (a tracked function: inline it) or None (lock free)"""
+        name = path[-1]
+        t = path[-2]
+        if t == "Self":
+            t = self.fn.typ
+        w = self.where(off)
+        if name[0].isupper():
+            return None                          # enum variant / tuple struct constructor / associated const
+        if t in TRACKED_IMPLS and (t, name) in self.fntab:
+            key = (t, name)
+            if key in RET_GUARD_IMPL:
+                die("%s: `%s` (returns a lock guard) used through a path: not supported" % (w, "::".join(path)))
+            if not is_call:
+                if key in CRATE["eff_keys"]:
+                    die("%s: `%s` used as a function value (function pointer) may take a lock: not supported"
+                        % (w, "::".join(path)))
+                return None
+            return "call"
+        if t in CRATE["types"] and t not in CRATE.get("leaf_types", set()):
+            if (t, name) in CRATE["fns"]:
+                if (t, name) in CRATE["eff_keys"]:
+                    die("%s: `%s` is a crate function that may take a lock and is not a tracked method" % (w, "::".join(path)))
+                return None
+            if name in TRAIT_METHODS or name.isupper():
+                return None
+            die("%s: cannot resolve `%s`" % (w, "::".join(path)))
+        if path[0] in STD_HEADS or t in STD_HEADS or t in CRATE.get("leaf_types", set()):
+            return None
+        if len(path) == 2 and t[0].islower() and name in CRATE["free"]:
+            if (None, name) in CRATE["eff_keys"]:
+                die("%s: free function `%s` may take a lock: not supported" % (w, "::".join(path)))
+            return None
+        die("%s: cannot resolve the path `%s` (not a tracked method, not a scanned lock-free crate function, "
+            "not a known std/crate path)" % (w, "::".join(path)))
+
+    def resolve_bare_call(self, name, off):
+        w = self.where(off)
+        if name[0].isupper() or name in self.pure_closures:
+            return
+        if name in CRATE["free"]:
+            if (None, name) in CRATE["eff_keys"]:
+                die("%s: free function `%s` may take a lock; free functions are not followed" % (w, name))
+            return
+        if name in ("panicking", "min", "max", "swap", "take", "replace", "size_of"):
+            return                                   # imported std functions used by the four files
+        die("%s: call of `%s(..)`: not a free function of the crate, not a callback parameter "
+            "(closure variable / function pointer?)" % (w, name))
 
     # -- bindings
     def bind_let(self, st, chain, off):
@@ -840,8 +967,10 @@ class Scanner:
             if name == "Ticker::new":
                 self.ev.append(("call", ("Ticker", "new"), w))
                 return ("Untracked", None, None)
-            self.ev.append(("call", (self.fn.typ, name.split("::")[-1]), w))
-            return (self.selfty, None, None)
+            segs = name.split("::")
+            owner = self.fn.typ if segs[-2] == "Self" else segs[-2]
+            self.ev.append(("call", (owner, segs[-1]), w))
+            return (SELF_TY.get(owner, "Untracked") if segs[-2] == "Self" else "Untracked", None, None)
         if ty == "callback":
             self.ev.append(("callback", None, w))
             return ("Untracked", None, None)
@@ -860,7 +989,16 @@ class Scanner:
             self.ev.append(("callback", None, w + " ProgressTracker::" + name))
             return ("Untracked", None, None)
         if ty == "Safe":
-            return ("Safe", None, None)
+            r = resolve_decl(recv[2] or "", name) if recv[2] else None
+            if r == "eff":
+                die("%s: `.%s()` on a receiver of declared type `%s` is a crate function that may take a lock; "
+                    "the translator does not follow it" % (w, name, recv[2]))
+            if r is None:
+                IGNORED.append((self.fn.typ, self.fn.name, name, w))
+            return ("SafeVal", None, None)
+        if ty == "SafeVal":
+            IGNORED.append((self.fn.typ, self.fn.name, name, w))
+            return ("SafeVal", None, None)
         if (ty, name) in PRIM:
             gty, res = PRIM[(ty, name)]
             return temp(res, gty)
@@ -929,16 +1067,24 @@ def parse_structs(text):
             STRUCT_FIELDS[(m.group(1), fm.group(1))] = fm.group(2).strip()
 
 
-def field_type(ty, name):
+def field_type(ty, name, text=None):
+    """-> (scan type, declared type text or None)"""
     if (ty, name) in FIELDS:
-        return FIELDS[(ty, name)]
-    if ty == "Safe":
-        return "Safe"
+        return FIELDS[(ty, name)], None
+    if ty in ("Safe", "SafeVal"):
+        ft = None
+        for t in (type_heads(text) if text else []):
+            if (t, name) in ALL_FIELDS:
+                ft = ALL_FIELDS[(t, name)]
+                break
+        if ft is None:
+            return "SafeVal", None      # e.g. a tuple field: nothing known, the name net applies to calls on it
+        return ("Safe", ft) if not TRACKED_WORDS.search(ft) else ("Untracked", None)
     impl_ty = {"BarTarget": "ProgressDrawTarget", "LeafTarget": "ProgressDrawTarget", "TickerOwned": "Ticker"}.get(ty, ty)
     ft = STRUCT_FIELDS.get((impl_ty, name))
     if ft is not None and not TRACKED_WORDS.search(ft):
-        return "Safe"       # a field whose type mentions no lock, no tracked type and no user callback
-    return "Untracked"
+        return "Safe", ft   # a field whose declared type mentions no lock, no tracked type and no user callback
+    return "Untracked", None
 
 
 # ------------------------------------------------------------------ whole-program part
@@ -973,6 +1119,26 @@ def check_new_remote(texts):
         for m in re.finditer(r"TargetKind::Multi\s*\{", t):
             if f != "draw_target.rs":
                 die("TargetKind::Multi constructed/matched outside draw_target.rs (%s:%d)" % (f, line_of(t, m.start())))
+
+
+def check_untracked(texts):
+    """functions outside the tracked impl blocks (free functions, impl blocks of other types, other files) are not
+    scanned.  They are harmless as long as they only CALL complete public methods one after the other; so they
+    must not contain a lock primitive and must not obtain a guard (`.state()` of a ProgressBar, `.drawable(..)`)."""
+    for (typ, name), bs in CRATE["fns"].items():
+        if typ in TRACKED_IMPLS:
+            continue
+        for f, body, _ in bs:
+            m = LOCK_CALL.search(body)
+            if m:
+                die("%s: %s::%s contains `%s` but is not in a tracked impl block" % (f, typ, name, m.group(0).strip()))
+            m = re.search(r"\.\s*(state\s*\(\s*\)|drawable\s*\()", body)
+            if m and (typ, name, m.group(1)[:5]) not in UNTRACKED_OK:
+                die("%s: %s::%s calls `.%s` (a guard constructor) but is not in a tracked impl block"
+                    % (f, typ, name, m.group(1)))
+
+
+UNTRACKED_OK = set()
 
 
 def flatten(key, fntab, stack, memo):
@@ -1025,6 +1191,197 @@ def check_balanced(name, evs):
         die("%s: unbalanced footprint, still holds %s" % (name, held))
 
 
+
+
+# ------------------------------------------------------------------ crate-wide call resolution (audit 2, N4)
+# Every call expression in a tracked body must be RESOLVED: to a tracked method that is inlined, to a function of
+# the crate that this scan found free of lock / condvar / spawn / join effects (fixpoint below), to a std / known
+# lock-free crate path, to an allow-listed macro, or to a user callback.  Anything else is an error.
+LEAF_FILES = {"in_memory.rs", "term_like.rs", "verif_clock.rs"}   # TermLike implementations (user-callback class,
+                                                                  # leaf mutex) and the mock clock (atomics only)
+STD_HEADS = {"std", "core", "alloc", "io", "fmt", "mem", "cmp", "iter", "thread", "time", "sync", "ops", "borrow",
+             "console", "unicode_width", "unicode_segmentation", "portable_atomic", "web_time", "vt100",
+             "Arc", "Rc", "Weak", "Box", "Vec", "String", "Option", "Result", "Some", "Ok", "Err", "Cow", "Ord",
+             "Instant", "Duration", "Mutex", "RwLock", "Condvar", "Ordering", "AtomicU64", "AtomicU8", "AtomicBool",
+             "Term", "Default", "Into", "From", "Iterator", "usize", "u64", "u16", "u8", "f64", "f32", "i64", "str",
+             "OnceLock", "Style", "Write", "Wrapping", "PhantomData", "Pin", "Poll", "Context", "SeekFrom"}
+TRAIT_METHODS = {"default", "from", "clone", "fmt", "eq", "cmp", "partial_cmp", "hash", "into", "try_from", "from_str",
+                 "add", "sub", "add_assign", "sub_assign", "deref", "deref_mut", "drop"}
+MACROS = {"matches", "assert", "assert_eq", "assert_ne", "debug_assert", "debug_assert_eq", "debug_assert_ne", "format",
+          "write", "writeln", "vec", "panic", "unreachable", "unimplemented", "todo", "cfg", "println", "eprintln"}
+KEYWORDS = {"if", "match", "while", "for", "return", "in", "as", "let", "loop", "else", "move", "ref", "mut", "break",
+            "continue", "fn", "impl", "where", "unsafe", "dyn", "pub", "use", "mod", "struct", "enum", "trait", "type",
+            "const", "static", "self", "Self", "super", "crate", "true", "false", "async", "await"}
+CRATE = {"types": set(), "fns": {}, "free": set(), "eff_keys": set(), "eff_names": set()}
+
+
+def parse_free_fns(text, fname):
+    """top-level `fn` items and trait default methods (everything that is not inside an impl block)"""
+    blank = text
+    for m in re.finditer(r"(?m)^impl\b[^{;]*\{", text):
+        e = match_brace(text, m.end() - 1)
+        blank = blank[:m.start()] + re.sub(r"[^\n]", " ", text[m.start():e]) + blank[e:]
+    out = []
+    i = 0
+    while True:
+        fm = re.compile(r"\bfn\s+(\w+)").search(blank, i)
+        if not fm:
+            break
+        j, ang = fm.end(), 0
+        while True:
+            if blank[j] == "<":
+                ang += 1
+            elif blank[j] == ">" and blank[j - 1] != "-":
+                ang -= 1
+            elif blank[j] == "(" and ang == 0:
+                break
+            j += 1
+        pe = match_paren(blank, j)
+        k = pe
+        while blank[k] not in "{;":
+            k += 1
+        if blank[k] == ";":
+            i = k + 1
+            continue
+        be = match_brace(blank, k)
+        out.append((fm.group(1), blank[k + 1:be - 1], line_of(blank, fm.start(1))))
+        i = be
+    return out
+
+
+ALL_FIELDS = {}     # (struct, field) -> declared type text, for every struct of the crate
+
+
+def type_heads(text):
+    """the crate types mentioned in a declared type; None = mentions a lock / tracked / callback type"""
+    return [t for t in re.findall(r"[A-Z]\w*", text) if t in CRATE["types"]]
+
+
+def resolve_decl(text, name):
+    """a method `name` called on a value whose DECLARED type is `text`: 'ok' (std / lock-free crate function),
+    'eff' (a crate function that may take a lock), or None (cannot tell: fall back to the name net)"""
+    if re.search(r"\b(dyn|impl)\b", text):
+        return None
+    t0 = re.sub(r"^(&\s*(mut\s+)?|'\w+\s+)*", "", text.strip())
+    if re.match(r"(Vec|VecDeque|Option|HashMap|BTreeMap|HashSet|String|Cow|Result)\b|\[", t0):
+        return "ok"             # the method belongs to the std container, whatever it contains
+    heads = [t for t in type_heads(text) if t not in CRATE.get("leaf_types", set())]
+    for t in heads:
+        if (t, name) in CRATE["fns"]:
+            return "eff" if (t, name) in CRATE["eff_keys"] else "ok"
+    if not heads:
+        return "ok"             # a std type: Vec, Option, Arc<Atomic..>, String, usize, Instant, ...
+    return None
+
+
+def call_effect(owner, params, body_prefix, head, dot, nm, call, chain):
+    """may this call-like occurrence reach a lock?  (used by the fixpoint over untracked functions)"""
+    eff, names = CRATE["eff_keys"], CRATE["eff_names"]
+    if nm in KEYWORDS or nm not in names:
+        return False
+    if head is not None:
+        t = owner if head == "Self" else head
+        if t in CRATE["types"]:
+            return (t, nm) in eff
+        if head in STD_HEADS or head[0].islower():
+            return (None, nm) in eff and head not in STD_HEADS
+        return True
+    if dot:
+        if not call:
+            return False
+        if chain:
+            parts = [x.strip() for x in chain.split(".")]
+            ty = None
+            if parts[0] == "self" and owner:
+                ty = owner
+            elif parts[0] in params:
+                ty = params[parts[0]]
+            for f in parts[1:]:
+                if ty is None:
+                    break
+                hs = [t for t in re.findall(r"[A-Z]\w*", ty) if t in CRATE["types"]]
+                nxt = None
+                for t in hs:
+                    if (t, f) in ALL_FIELDS:
+                        nxt = ALL_FIELDS[(t, f)]
+                        break
+                ty = nxt
+            if ty is not None:
+                r = resolve_decl(ty, nm)
+                if r is not None:
+                    return r == "eff"
+        return True                 # method call by name on a receiver that cannot be typed
+    if call:
+        return (None, nm) in eff
+    return (None, nm) in eff and nm in CRATE["free"]
+
+
+# method calls by NAME inside UNSCANNED crate functions whose receiver is a local value the fixpoint cannot type and whose
+# name coincides with a locking function; each checked by hand (type, function, method)
+FIX_OK = {
+    ("ProgressStyle", "format_state", "clear"),             # buf: String
+    ("Template", "from_str_with_tab_width", "clear"),       # buf: String
+    ("Template", "set_tab_width", "set_tab_width"),         # s: &mut TabExpandedString (loop over template parts)
+}
+
+OCC = re.compile(r"(?:\b([A-Za-z_]\w*)\s*::\s*)?((?:\b(?:self|[a-z_]\w*)(?:\s*\.\s*\w+)*)?\s*\.\s*)?\b([A-Za-z_]\w*)\b"
+                 r"(\s*(?:::\s*<[^>()]*>\s*)?\()?")
+
+
+def crate_scan(repo):
+    src = os.path.join(repo, "src")
+    bodies = {}     # key -> list of (file, body, params)
+    texts = {}
+    for f in sorted(os.listdir(src)):
+        if not f.endswith(".rs"):
+            continue
+        raw, text, fns = parse_file(os.path.join(src, f), f)
+        texts[f] = (text, fns)
+        for m in re.finditer(r"\b(?:struct|enum|trait|type|union)\s+([A-Z]\w*)", text):
+            CRATE["types"].add(m.group(1))
+            if f in LEAF_FILES:
+                CRATE.setdefault("leaf_types", set()).add(m.group(1))
+    for f, (text, fns) in texts.items():
+        for m in re.finditer(r"struct\s+(\w+)(?:<[^>{]*>)?\s*\{", text):
+            end = match_brace(text, m.end() - 1)
+            for fm in re.finditer(r"(?:pub(?:\([a-z]+\))?\s+)?(\w+)\s*:\s*([^,]+),", text[m.end():end - 1]):
+                ALL_FIELDS[(m.group(1), fm.group(1))] = fm.group(2).strip()
+        if f in LEAF_FILES:
+            continue
+        for fn in fns:
+            bodies.setdefault((fn.typ, fn.name.split(":")[-1]), []).append((f, fn.body, fn.params))
+        for name, body, line in parse_free_fns(text, f):
+            bodies.setdefault((None, name), []).append((f, body, ""))
+            CRATE["free"].add(name)
+    CRATE["fns"] = bodies
+    eff = set(k for k, bs in bodies.items() if any(LOCK_CALL.search(b) for _, b, _ in bs))
+    CRATE["eff_keys"] = eff
+    changed = True
+    while changed:
+        changed = False
+        CRATE["eff_names"] = set(k[1] for k in eff)
+        for k, bs in bodies.items():
+            if k in eff:
+                continue
+            hit = False
+            for _, b, ptxt in bs:
+                params = dict((m.group(1), m.group(2)) for m in re.finditer(r"(\w+)\s*:\s*([^,]+)", ptxt))
+                for m in OCC.finditer(b):
+                    chain = m.group(2)
+                    dot = bool(chain)
+                    if chain:
+                        chain = re.sub(r"\s*\.\s*$", "", chain.strip())
+                    if (k[0], k[1], m.group(3)) in FIX_OK:
+                        continue
+                    if call_effect(k[0], params, None, m.group(1), dot, m.group(3), m.group(4), chain):
+                        hit = True
+                        break
+                if hit:
+                    break
+            if hit:
+                eff.add(k)
+                changed = True
+    CRATE["eff_names"] = set(k[1] for k in eff)
 
 # ------------------------------------------------------------------ structured programs
 # nodes: ("act", ev) | ("call", key) | ("seq", [nodes]) | ("br", [[nodes], ...]) | ("loop", [nodes])
@@ -1236,6 +1593,7 @@ def main(argv):
         repo = argv[argv.index("--repo") + 1]
     if "--out" in argv:
         out = argv[argv.index("--out") + 1]
+    crate_scan(repo)
     fntab, texts, raws = {}, {}, {}
     for f in FILES:
         raw, text, fns = parse_file(os.path.join(repo, "src", f), f)
@@ -1254,6 +1612,27 @@ def main(argv):
             die("expected function %s::%s not found" % need)
     validate_guard_fns(fntab)
     check_new_remote(texts)
+    check_untracked(texts)
+    # the drop glue of a ProgressBar handle (field order of the struct); every field: the Drop impl runs only
+    # if this handle held the last reference
+    m = re.search(r"pub struct ProgressBar\s*\{([^}]*)\}", texts["progress_bar.rs"])
+    glue = []
+    br = lambda key: [("M", "br_open"), ("M", "alt_open"), ("call", key, "drop glue"), ("M", "alt_close"),
+                      ("M", "alt_open"), ("M", "alt_close"), ("M", "br_close")]
+    for fname, fty in re.findall(r"(\w+)\s*:\s*([^,]+),", m.group(1)):
+        fty = re.sub(r"\s+", "", fty)
+        if fty == "Arc<Mutex<BarState>>":
+            glue.append(("droparc", None, "progress_bar.rs: field " + fname))
+            glue.extend(br(("BarState", "drop:drop")))
+        elif fty == "Arc<Mutex<Option<Ticker>>>":
+            glue.extend(br(("Ticker", "drop:drop")))
+        elif fty == "Arc<AtomicPosition>":
+            pass
+        else:
+            die("ProgressBar has a field of a type the translator does not know: %s: %s" % (fname, fty))
+    gfn = Fn("progress_bar.rs", "ProgressBar", "drop:glue", "", False, "", 0, line_of(texts["progress_bar.rs"], m.start()), False)
+    gfn.events = glue
+    fntab[("ProgressBar", "drop:glue")] = gfn
     # scan
     covered = set()
     for key, fn in sorted(fntab.items()):
@@ -1261,6 +1640,8 @@ def main(argv):
             fn.events = []
             for m in LOCK_CALL.finditer(fn.body):
                 covered.add((fn.file, line_of(texts[fn.file], fn.body_off + m.start())))
+            continue
+        if key == ("ProgressBar", "drop:glue"):
             continue
         sc = Scanner(fn, fntab)
         fn.events = sc.run()
@@ -1291,7 +1672,8 @@ def main(argv):
     for k in MUST_BE_LOCK_FREE:
         if k not in flat or any(e[0] in ("acq", "join", "spawn", "waitrel") for e in flat[k]):
             die("%s::%s is expected to run under the caller's Multi guard without taking a lock itself" % k)
-    suspicious = [x for x in IGNORED if x[2] in eff_names and (x[0], x[1], x[2]) not in IGNORE_OK]
+    net = set(eff_names) | CRATE["eff_names"]
+    suspicious = [x for x in IGNORED if x[2] in net and (x[0], x[1], x[2]) not in IGNORE_OK]
     if suspicious:
         die("calls on untyped receivers that share a name with a locking function: %r" % suspicious)
     # structured programs: control flow from the markers, early exits resolved, callees inlined
@@ -1309,25 +1691,8 @@ def main(argv):
         b = [(e[0], e[1]) for e in flat[k]]
         if a != b:
             die("%s::%s: the structured program and the linear footprint disagree:\n %r\n %r" % (k[0], k[1], a, b))
-    # synthesized: dropping a ProgressBar handle (field order of the struct), cloning one
-    m = re.search(r"pub struct ProgressBar\s*\{([^}]*)\}", texts["progress_bar.rs"])
-    fields = re.findall(r"(\w+)\s*:\s*([^,]+),", m.group(1))
-    drop_ev = []
-    drop_tree = []      # each field: the Drop impl runs only if this handle held the last reference
-    for fname, fty in fields:
-        fty = re.sub(r"\s+", "", fty)
-        if fty == "Arc<Mutex<BarState>>":
-            drop_ev.append(("droparc", None, "progress_bar.rs: field " + fname))
-            drop_ev.extend(flat[("BarState", "drop:drop")])
-            drop_tree.append(("act", drop_ev[0]))
-            drop_tree.append(("br", [[("seq", prog[("BarState", "drop:drop")])], []]))
-        elif fty == "Arc<Mutex<Option<Ticker>>>":
-            drop_ev.extend(flat[("Ticker", "drop:drop")])
-            drop_tree.append(("br", [[("seq", prog[("Ticker", "drop:drop")])], []]))
-        elif fty == "Arc<AtomicPosition>":
-            pass
-        else:
-            die("ProgressBar has a field of a type the translator does not know: %s: %s" % (fname, fty))
+    drop_ev = flat[("ProgressBar", "drop:glue")]
+    drop_tree = prog[("ProgressBar", "drop:glue")]
     # output
     table = []
     programs = {}
@@ -1423,6 +1788,9 @@ IGNORE_OK = {
     ("ProgressDrawTarget", "disconnect", "clear"),   # Drawable::Multi{..}.clear(): runs under the guard acquired on the
                                                      # line before; Drawable::clear/draw themselves take no lock (checked below)
     ("Ticker", "new", "run"),                        # TickerControl::run: body of the spawned thread (ticker_body)
+    ("Drawable", "draw", "draw_to_term"),            # DrawState::draw_to_term: Term / dyn TermLike calls (user code);
+                                                     # no lock primitive outside the tracked impls (check_untracked)
+    ("MultiState", "insert", "position"),            # Iterator::position on self.ordering.iter()
 }
 MUST_BE_LOCK_FREE = [("Drawable", "clear"), ("Drawable", "draw"), ("Drawable", "state"), ("MultiState", "draw"),
                      ("MultiState", "clear"), ("MultiState", "suspend"), ("MultiState", "println"),
